@@ -13,6 +13,8 @@ of these theorems fail to build.
 * `source_quant`, `source_velocity`, `source_isclose`, `source_derivative`   the model's functions written over the
                       generated constants
 -/
+import PartituraModel.Model.CodecAl
+import PartituraModel.Model.CodecSeq
 import PartituraModel.Gen.C18Lits
 import PartituraModel.Proofs.C18Ext3
 
@@ -102,5 +104,23 @@ theorem source_derivative (f : Rat → Option Rat) (x a b c : Rat)
   rw [ha, hb, hc]
   simp only [Gen.C18_DERIV_WEIGHTS, Gen.C18_DERIV_DX, List.getD_cons_zero, List.getD_cons_succ, Option.some.injEq]
   ring
+
+/-- round 6: which side of an alignment entry each function passes through `str(·)` (Model/CodecAl.lean: `to_matched_score`
+    rewrites and reads `str(score_id)` and looks `performance_id` up as it is; `get_matched_notes` the other way round) -/
+theorem source_id_forms :
+    Gen.C18_STR_IDS = [("to_matched_score", ["score_id"]), ("get_matched_notes", ["performance_id"])] ∧
+    Gen.C18_ID_LOOKUPS = [("part_by_id", "score_id"), ("ppart_by_id", "performance_id")] ∧
+    (∀ l v p, (flatS ⟨some l, some v, some p⟩).sid = some (pyStr v)) ∧
+    (∀ l v p, (flatP ⟨some l, some v, some p⟩).pid = some (pyStr p)) :=
+  ⟨by decide +kernel, by decide +kernel, fun _ _ _ => rfl, fun _ _ _ => rfl⟩
+
+/-- round 6: the column names of the parameter array (Model/CodecSeq.lean `paramNames`, `encodedColumns`,
+    `requiredColumns`) are the `param_names` of `TEMPO_NORMALIZATION`, `parameter_names` of `encode_tempo` and the list
+    `decode_performance` indexes the array with -/
+theorem source_column_names :
+    Gen.C18_PARAM_NAMES = allNorms.map (fun n => (normName n, paramNames n)) ∧
+    (∀ n ∈ allNorms, encodedColumns n = Gen.C18_BASE_PARAMS ++ (if n = .bp then [] else paramNames n)) ∧
+    (∀ n ∈ allNorms, requiredColumns n = "velocity" :: (Gen.C18_DECODE_PARAMS ++ (if n = .bp then [] else paramNames n))) := by
+  decide +kernel
 
 end C18
